@@ -120,10 +120,8 @@ def run_interleaved(specs, res, tagsuffix=''):
     msg_lines = [session.MSG_LINE.match(l) for k, i, l in lines_out if k == 'line']
     shown_names = [mm.group(2) for mm in msg_lines if mm]
     model_names = [W.conns[m['conn'] if m['conn'] is not None else 'PARSED'].name for m in specs]
-    # (a message on an object never seen created has no object to take the name from: the tool leaves the prefix empty and
-    #  files it under the connection `unknown` for matchers; it must still never carry another connection's name)
-    unseen = [m['id'] not in W_ids_before[k] for k, m in enumerate(specs)]
-    if len(shown_names) != len(model_names) or any(a != b and not (u and a == '') for a, b, u in zip(shown_names, model_names, unseen)):
+    # (also a message on an object never seen created: it arrived on that connection)
+    if shown_names != model_names:
         res.bad('line-prefix', 'prefixes %r, model %r' % (shown_names[:20], model_names[:20]))
     # the `connection` command: listed (open or closed) with role and count
     cmd = [seg for seg in segs if seg.kind == 'cmd']
